@@ -1,4 +1,5 @@
 import CTV.Model.X509Wrap
+import CTV.Lemmas.DerSlices
 /-!
 # C11 — The lenient X.509 parser is total, error-coherent and exact on well-formed input
 
@@ -113,5 +114,59 @@ example : InnerOK ⟨true, .nonFatalErrors 2⟩ ∧ InnerOK ⟨false, .plain⟩ 
 -- the hypothesis is needed: an inner function that returned (nil, NonFatalErrors) would surface as a mixed result
 example : ¬ Coherent (mergeInner ⟨false, .nonFatalErrors 1⟩ 0) := by decide
 example : parseCertificateListDER Dialect.upstream (fun _ => ([false, true], false)) [0x30, 0x00] = ⟨false, .errorsPtr [true]⟩ := by rfl
+
+
+/-! ## raw fields are the exact sub-slices of the input -/
+
+/-- `full` is the element that `readTLV` finds at some offset of `whole` -/
+def ElemAt (d : Dialect) (whole : Bytes) (e : Elem) : Prop :=
+  ∃ pre post, whole = pre ++ e.full ++ post ∧ readTLV d (e.full ++ post) = .ok (e, post)
+
+/-- **raw_slices.** For every certificate the envelope decoder accepts (strictly or lax, any dialect): `Raw` is the
+whole outer element; `RawTBSCertificate` is the first element of its content; `RawIssuer`, `RawSubject` and
+`RawSubjectPublicKeyInfo` are elements found by `readTLV` inside the TBS content (the positions of the fourth,
+sixth and seventh field). Each is `bs.extract a b` for the offsets of that element — header and declared
+length, nothing more, nothing less. -/
+theorem raw_slices (d : Dialect) (m : Mode) (bs : Bytes) (cert : AVal) (rest : Bytes)
+    (h : parseField d m Gen.ty_certificate {} bs = .ok (cert, rest)) :
+    ∃ outer tbs eIssuer eSubject eSpki,
+      readTLV (d.forMode m) bs = .ok (outer, rest) ∧ (rawFields cert).raw = outer.full ∧
+      readTLV (d.forMode m) outer.content = .ok (tbs, outer.content.drop tbs.full.length) ∧ (rawFields cert).tbs = tbs.full ∧
+      ElemAt (d.forMode m) tbs.content eIssuer ∧ (rawFields cert).issuer = eIssuer.full ∧
+      ElemAt (d.forMode m) tbs.content eSubject ∧ (rawFields cert).subject = eSubject.full ∧
+      ElemAt (d.forMode m) tbs.content eSpki ∧ (rawFields cert).spki = eSpki.full := by
+  have plain : ∀ t : ATy, t.isAny = false → PlainField {} t := fun t ht => ⟨rfl, rfl, ht⟩
+  obtain ⟨outer, hro, hraw⟩ := plainField_readTLV d m _ _ _ _ _ (plain _ rfl) h
+  simp only [Gen.ty_certificate, RawOf] at hraw
+  obtain ⟨vs, left, hfs, rfl⟩ := hraw
+  -- first field: the TBS
+  obtain ⟨vtbs, bs', vs', h1, _, rfl⟩ := parseFields_cons d m _ _ _ _ _ _ hfs
+  obtain ⟨tbs, hrt, hrawt⟩ := plainField_readTLV d m _ _ _ _ _ (plain _ rfl) h1
+  simp only [Gen.ty_tbsCertificate, RawOf] at hrawt
+  obtain ⟨tvs, tleft, htfs, rfl⟩ := hrawt
+  have hsplit := readTLV_split _ _ _ _ hrt
+  have hdrop : bs' = outer.content.drop tbs.full.length := by
+    rw [hsplit]; simp
+  -- the three raw fields inside the TBS
+  obtain ⟨v3, pre3, post3, e3, hv3, hb3, hr3, hraw3⟩ := parseFields_slices d m _ _ _ _ htfs 3 {} .rawValue rfl (plain _ rfl)
+  obtain ⟨v5, pre5, post5, e5, hv5, hb5, hr5, hraw5⟩ := parseFields_slices d m _ _ _ _ htfs 5 {} .rawValue rfl (plain _ rfl)
+  obtain ⟨v6, pre6, post6, e6, hv6, hb6, hr6, hraw6⟩ := parseFields_slices d m _ _ _ _ htfs 6 {} Gen.ty_publicKeyInfo rfl (plain _ rfl)
+  simp only [RawOf] at hraw3 hraw5
+  simp only [Gen.ty_publicKeyInfo, RawOf] at hraw6
+  obtain ⟨svs, sleft, _, hv6eq⟩ := hraw6
+  refine ⟨outer, tbs, e3, e5, e6, hro, rfl, hdrop ▸ hrt, ?_, ⟨pre3, post3, hb3, hr3⟩, ?_, ⟨pre5, post5, hb5, hr5⟩, ?_, ⟨pre6, post6, hb6, hr6⟩, ?_⟩
+  · simp [rawFields, structField, structRaw, AVal.unwrap]
+  · have : tvs.getD 3 (.bool false) = v3 := by simp [List.getD, hv3]
+    simp only [rawFields, structField, structRaw, AVal.unwrap, List.getD_cons_zero, this, hraw3, rawFull]
+  · have : tvs.getD 5 (.bool false) = v5 := by simp [List.getD, hv5]
+    simp only [rawFields, structField, structRaw, AVal.unwrap, List.getD_cons_zero, this, hraw5, rawFull]
+  · have : tvs.getD 6 (.bool false) = v6 := by simp [List.getD, hv6]
+    simp only [rawFields, structField, structRaw, AVal.unwrap, List.getD_cons_zero, this, hv6eq, if_true]
+
+-- non-vacuity: a minimal certificate envelope (issuer = SEQUENCE { SET {} }, subject = empty SEQUENCE)
+def sampleCert : Bytes := [0x30, 0x47, 0x30, 0x3b, 0x02, 0x01, 0x01, 0x30, 0x04, 0x06, 0x02, 0x2a, 0x03, 0x30, 0x02, 0x31, 0x00, 0x30, 0x1e, 0x17, 0x0d, 0x32, 0x34, 0x30, 0x31, 0x30, 0x31, 0x30, 0x30, 0x30, 0x30, 0x30, 0x30, 0x5a, 0x17, 0x0d, 0x32, 0x35, 0x30, 0x31, 0x30, 0x31, 0x30, 0x30, 0x30, 0x30, 0x30, 0x30, 0x5a, 0x30, 0x00, 0x30, 0x0a, 0x30, 0x04, 0x06, 0x02, 0x2a, 0x03, 0x03, 0x02, 0x00, 0x01, 0x30, 0x04, 0x06, 0x02, 0x2a, 0x03, 0x03, 0x02, 0x00, 0x01]
+example : (match parseField Dialect.upstream .strict Gen.ty_certificate {} (sampleCert ++ [0xAA]) with
+    | .ok (c, rest) => some ((rawFields c).issuer, (rawFields c).subject, (rawFields c).tbs.length, (rawFields c).raw.length, rest)
+    | .error _ => none) = some ([0x30, 0x02, 0x31, 0x00], [0x30, 0x00], 61, 73, [0xAA]) := by rfl
 
 end C11
